@@ -22,7 +22,7 @@ func init() {
 		MinNontriv: 30,
 		Cases: func(tier string) int {
 			if tier == "thorough" {
-				return 15000
+				return 100000
 			}
 			return 1500
 		},
